@@ -31,7 +31,7 @@ CLAIMED = {
             "Trusted: Lean kernel + standard axioms; transcription of the timestep kernels (validated by L-dt); sampling for the driver clause.",
             "DESIGN.md 4/C18"),
     'C01': ("Lean 4 theorems (telescoping balance for any mesh/flux array, periodic and wall invariance for arbitrary kernels, integrator conservation for any table) + exact-Q correspondence of every pipeline stage",
-            "Machine-checked proof on the 1D pipeline model: sum(vol*res) = F_0 - F_n + integrated sources for any faces and flux array; periodic ends carry equal fluxes for arbitrary cons2prim/reconstruction/flux; mass/energy (depth) fluxes vanish at slip walls for every registered Euler/shallow-water flux; every explicit integrator (any Butcher table / low-storage list) conserves linear functionals killed by the operator. Partial: 2D and implicit clauses are explored by the sweep only.",
+            "Machine-checked proof on the 1D pipeline model: sum(vol*res) = F_0 - F_n + integrated sources for any faces and flux array; periodic ends carry equal fluxes for arbitrary cons2prim/reconstruction/flux; mass/energy (depth) fluxes vanish at slip walls for every registered Euler/shallow-water flux; every explicit integrator (any Butcher table / low-storage list) conserves linear functionals killed by the operator. 2D balance and fully periodic invariance are theorems on the structured 2D model; a theta-step with one global time step conserves every linear functional annihilated by the operator (finite-difference Jacobian columns are differences of residuals). Partial: 2D slip walls, gear with memory and whole solves are explored by the sweep.",
             "Trusted: Lean kernel + standard axioms; transcription of fvm1d and the integrator loops (validated by L-rhs1d over all stages and L-int); sampling.",
             "DESIGN.md 4/C01"),
     'C03': ("Lean 4 theorems (zero residual of a uniform state for any mesh/scheme/pointwise flux and any boundary kernel fixing the state; C16 compatibility theorems; explicit integrators fix zeros) + correspondence",
@@ -43,7 +43,7 @@ CLAIMED = {
             "Trusted: Lean kernel + standard axioms; gen_tables.py; transcription of grad/reconstruction (validated by L-rhs1d); sampling.",
             "DESIGN.md 4/C11"),
     'C14': ("Lean 4 refinement theorem (periodic uniform 1D pipeline = cyclic seam-free pipeline for every n>=1) and shift-equivariance corollaries + correspondence",
-            "Machine-checked proof that on a uniform periodic mesh the 1D residual commutes with every cyclic shift, for any reconstruction, cons2prim and pointwise flux, including n = 1,2,3. Partial: 2D shifts and the lift through integrators are checked bitwise/to round-off on the implementation by the sweep.",
+            "Machine-checked proof that on a uniform periodic mesh the 1D residual commutes with every cyclic shift, for any reconstruction, cons2prim and pointwise flux, including n = 1,2,3. 2D: the residual commutes with cyclic shifts along x and along y for periodic pairs (any other pair arbitrary). Partial: the lift through integrators is checked to round-off on the implementation by the sweep.",
             "Trusted: Lean kernel + standard axioms; transcription of fvm1d (validated by L-rhs1d); sampling.",
             "DESIGN.md 4/C14"),
     'C19': ("Lean 4 theorems on add_source, nozzle source composition and geometric term + correspondence (L-rhs1d with nozzle sources, L-noz)",
